@@ -78,6 +78,8 @@ impl<'a> IExec<'a> {
         // ---- 1. the hub builds the inner message (independent encoder)
         let mut inner_tag = w(0);
         let mut announced_amt: Option<Word> = None;
+        // what the hub wrote, field by field, when every field is representable
+        let mut announced_msg: Option<AMsg> = None;
         let inner: Vec<u8> = match body {
             InBody::Transfer { tok, to, amount, data, src } => {
                 let (id, t_opt) = match self.resolve_tok(tok) {
@@ -105,6 +107,11 @@ impl<'a> IExec<'a> {
                 let rb: Vec<u8> = match to {
                     Recipient::User(u) => xdr_of(&saddr(&self.h[2 + *u as usize % 4])),
                     Recipient::App => xdr_of(&saddr(&self.h[H_APP])),
+                    Recipient::Service => {
+                        ctx.count("probe.inbound_recipient_is_the_token_service");
+                        xdr_of(&saddr(&self.h[H_ITS]))
+                    }
+                    Recipient::GasService => xdr_of(&saddr(&self.h[H_GAS])),
                     Recipient::Garbage => {
                         ctx.count("probe.inbound_undecodable_recipient");
                         if *src % 2 == 0 { vec![1, 2, 3, 4, 5] } else { xdr_of(&su32(7)) }
@@ -113,6 +120,9 @@ impl<'a> IExec<'a> {
                 let db: Vec<u8> = data.map(|i| self.cfg.payloads[i as usize % self.cfg.payloads.len()].clone()).unwrap_or_default();
                 if let Dev::InnerTypeUnsupported(t) = dev {
                     inner_tag = w(*t as u128);
+                }
+                if amt[..16] == [0u8; 16] && amt[16] < 0x80 {
+                    announced_msg = Some(AMsg::Transfer { id, src: DSTS[*src as usize % DSTS.len()].to_vec(), dst: rb.clone(), amount: u128::from_be_bytes(amt[16..].try_into().unwrap()), data: db.clone() });
                 }
                 enc_transfer(inner_tag, &id, DSTS[*src as usize % DSTS.len()], &rb, amt, &db)
             }
@@ -159,6 +169,7 @@ impl<'a> IExec<'a> {
                     inner_tag = w(*t as u128);
                 }
                 let decimals = DECIMALS[meta.decimals as usize % DECIMALS.len()].min(255);
+                announced_msg = Some(AMsg::Deploy { id: idb, name: NAMES[meta.name as usize % NAMES.len()].to_string(), symbol: SYMS[meta.symbol as usize % SYMS.len()].to_string(), decimals: decimals as u8, minter: mb.clone() });
                 enc_deploy(inner_tag, &idb, NAMES[meta.name as usize % NAMES.len()].as_bytes(), SYMS[meta.symbol as usize % SYMS.len()].as_bytes(), w(decimals as u128), &mb)
             }
         };
@@ -236,6 +247,15 @@ impl<'a> IExec<'a> {
         if let (true, Some(aw), Some(AHub { msg: AMsg::Transfer { amount, .. }, .. })) = (bytes_as_built, announced_amt, &decoded) {
             if !ctx.check(w(*amount as u128) == aw, &["C05", "C04", "C10"], "its.decode/announced-amount-misread", || {
                 format!("the hub announced amount 0x{} and the service reads {}", hex::encode(aw), amount)
+            }) {
+                return;
+            }
+        }
+        // ... and every other field: a decoder that trims, folds or otherwise "repairs" what the hub wrote
+        if let (true, Some(am), Some(d)) = (bytes_as_built, &announced_msg, &decoded) {
+            let tags: &[&'static str] = if matches!(am, AMsg::Deploy { .. }) { &["C11", "C04", "C10"] } else { &["C05", "C04", "C10"] };
+            if !ctx.check(d.msg == *am && d.chain == origin_chain && !d.send, tags, "its.decode/announced-message-misread", || {
+                format!("the hub announced {:?} from {:?} and the service reads {:?}", am, origin_chain, d)
             }) {
                 return;
             }
@@ -367,7 +387,9 @@ impl<'a> IExec<'a> {
                                             reasons.push("destination-app-fails");
                                         }
                                     }
-                                    if to == H_ITS || to == H_GAS {
+                                    if to == H_ITS && !native {
+                                        // releasing custody to the custodian itself: the statement's custody
+                                        // equation has no reading for it
                                         either = true;
                                     }
                                 } else if !data.is_empty() {
@@ -462,6 +484,10 @@ impl<'a> IExec<'a> {
                 if native {
                     ctx.count("probe.inbound_mint_path");
                     self.toks[t].supply = self.toks[t].supply.wrapping_add(amount);
+                } else if to == Some(H_ITS) {
+                    // custody "released" to the custodian itself: nothing moves, and the model does not
+                    // count it as released either (the custody equation is stated over the service's balance)
+                    ctx.count("probe.inbound_release_to_the_service_itself");
                 } else {
                     ctx.count("probe.inbound_release_path");
                     self.add_bal(t, H_ITS, -amount);
@@ -469,7 +495,9 @@ impl<'a> IExec<'a> {
                 }
                 match to {
                     Some(to) => {
-                        self.add_bal(t, to, amount);
+                        if native || to != H_ITS {
+                            self.add_bal(t, to, amount);
+                        }
                         let exp = vec![Ev {
                             contract: addr_bytes(&its),
                             topics: vec![sym("interchain_transfer_received"), sstr(&origin), sbytes(&id), sbytes(&src), saddr(&self.h[to]), si128(amount)],
